@@ -22,7 +22,11 @@ import (
 // jsonpath.Retrieve ("$.a" / "$[1]") and, when that inner retrieval fails, return ITS error
 // unchanged, as a user function naturally would; for the outer retrieval that is still a failed
 // user function.
-var FilterNames = []string{"f1", "f2", "f3", "f4", "f5", "f6", "fre", "fnan", "fnest"}
+//
+// "fboth" is registered twice on every Config: as a filter function and, under the same name, as an
+// aggregate function (in either order). ".fboth()" is the filter function: the two kinds have
+// separate name spaces and a function step looks among the filter functions first.
+var FilterNames = []string{"f1", "f2", "f3", "f4", "f5", "f6", "fre", "fnan", "fnest", "fboth"}
 
 // "gid" returns the very slice it was given (an aggregate a user could plausibly write); it
 // makes the ownership of the argument list observable (C05).
@@ -56,6 +60,9 @@ func ApplyFilter(name string, v interface{}) (interface{}, error) {
 	}
 	if name == "fre" {
 		return v, nil
+	}
+	if name == "fboth" {
+		return []interface{}{"fboth", v}, nil
 	}
 	if name == "fnest" {
 		if m, ok := v.(map[string]interface{}); ok {
